@@ -10,6 +10,12 @@ package kv
 // union of the servers' keyspaces (type, value, TTL read through miniredis' inspection API) must
 // equal the model's final keyspace, every key living on exactly one shard.
 // miniredis is the environment; the expected values all come from the specification.
+//
+// Families beyond the classic data types: bitmaps (a string whose model value is a byte sequence is
+// compared byte by byte: c12Align), HyperLogLogs (snapshot = miniredis' PfCount), the three fixed
+// scripts of the specification through Eval / EvalSha / ScriptLoad (the servers' script caches are
+// flushed between histories and compared with the model's cache state through SCRIPT EXISTS), and the
+// scan family, where one model step is a complete iteration (scanAll: cursor 0 until cursor 0).
 
 import (
 	"context"
@@ -60,7 +66,23 @@ type c12Target struct {
 	api     Store
 	rds     *redis.Redis // non-nil: the wrapper itself (multi-key commands available)
 	servers []*miniredis.Miniredis
-	ncmd    atomic.Int64 // commands that reached any of the servers (pre-hook)
+	ncmd    atomic.Int64  // commands that reached any of the servers (pre-hook)
+	raw     []*red.Client // harness access to the servers' script caches (SCRIPT FLUSH / SCRIPT EXISTS)
+	scripts bool          // a script command has run since the caches were last flushed
+}
+
+// flushScripts empties the servers' script caches (miniredis' FlushAll leaves them alone).
+func (t *c12Target) flushScripts() error {
+	if !t.scripts {
+		return nil
+	}
+	for _, c := range t.raw {
+		if err := c.ScriptFlush(context.Background()).Err(); err != nil {
+			return err
+		}
+	}
+	t.scripts = false
+	return nil
 }
 
 func (t *c12Target) hook() {
@@ -97,8 +119,15 @@ func c12NewTargets() ([]*c12Target, error) {
 	if err != nil {
 		return nil, err
 	}
+	raws := func(ss []*miniredis.Miniredis) []*red.Client {
+		var cs []*red.Client
+		for _, s := range ss {
+			cs = append(cs, red.NewClient(&red.Options{Addr: s.Addr()}))
+		}
+		return cs
+	}
 	r := redis.New(ss[0].Addr())
-	out = append(out, &c12Target{name: "redis", api: redisAsStore{r}, rds: r, servers: ss})
+	out = append(out, &c12Target{name: "redis", api: redisAsStore{r}, rds: r, servers: ss, raw: raws(ss)})
 	out[0].hook()
 	weights := [][]int{{100}, {100, 40}, {30, 100, 60}}
 	for _, ws := range weights {
@@ -110,7 +139,7 @@ func c12NewTargets() ([]*c12Target, error) {
 		for i, w := range ws {
 			conf = append(conf, cache.NodeConfig{Config: redis.Config{Host: ss[i].Addr(), Type: redis.NodeType}, Weight: w})
 		}
-		out = append(out, &c12Target{name: fmt.Sprintf("kv%d", len(ws)), api: New(conf), servers: ss})
+		out = append(out, &c12Target{name: fmt.Sprintf("kv%d", len(ws)), api: New(conf), servers: ss, raw: raws(ss)})
 		out[len(out)-1].hook()
 	}
 	return out, nil
@@ -130,6 +159,10 @@ func c12ErrClass(err error) string {
 		return "deadline"
 	case strings.HasPrefix(err.Error(), "WRONGTYPE"):
 		return "wrongtype"
+	case strings.HasPrefix(err.Error(), "ERR Error") && strings.Contains(err.Error(), "WRONGTYPE"):
+		return "wrongtype" // raised by redis.call inside a script: the server wraps the cause ("ERR Error running script ...")
+	case strings.HasPrefix(err.Error(), "NOSCRIPT"):
+		return "noscript"
 	case strings.Contains(err.Error(), "not an integer"):
 		return "notint"
 	}
@@ -247,21 +280,99 @@ func anys(ss []string) []any {
 
 // opsNoValue: the wrapper method returns only an error
 var c12NoValue = map[string]bool{"set": true, "setex": true, "hset": true, "hmset": true, "expire": true,
-	"expireat": true, "ltrim": true, "advance": true}
+	"expireat": true, "ltrim": true, "advance": true, "pfmerge": true}
 
 // opsUnordered: the reply is a collection without order
 var c12Unordered = map[string]bool{"keys": true, "hgetall": true, "hkeys": true, "hvals": true, "smembers": true,
-	"sunion": true, "sinter": true, "sdiff": true}
+	"sunion": true, "sinter": true, "sdiff": true, "scanall": true, "sscanall": true, "hscanall": true}
 
 // commands that kv.Store does not offer
 var c12NotInStore = map[string]bool{"mget": true, "keys": true, "sunion": true, "sinter": true, "sdiff": true,
-	"sunionstore": true, "sinterstore": true, "sdiffstore": true, "zunionstore": true}
+	"sunionstore": true, "sinterstore": true, "sdiffstore": true, "zunionstore": true,
+	"bitcount": true, "bitpos": true, "bitopand": true, "bitopor": true, "bitopxor": true, "bitopnot": true,
+	"pfmerge": true, "evalsha": true, "scriptload": true, "scanall": true, "hscanall": true}
+
+// commands that touch the servers' script caches
+var c12ScriptOps = map[string]bool{"eval": true, "evalsha": true, "scriptload": true}
 
 type c12Run struct {
 	t      *c12Target
 	prefix string
 	clock  int
 	ctx    context.Context
+	calls  int // wrapper calls made by the last exec (a complete scan iteration makes several)
+}
+
+// a complete iteration of the scan family makes at most this many calls in the model's small keyspaces
+const c12ScanRounds = 64
+
+// scanAll iterates one of Scan / SScan / HScan from cursor 0 until the cursor comes back as 0 and returns
+// everything the calls returned, in order.
+func (x *c12Run) scanAll(call func(cursor uint64) ([]string, uint64, error)) ([]string, error) {
+	var all []string
+	var cur uint64
+	x.calls = 0
+	for {
+		if x.calls >= c12ScanRounds {
+			return all, fmt.Errorf("scan: no cursor 0 after %d calls (last cursor %d)", x.calls, cur)
+		}
+		keys, next, err := call(cur)
+		x.calls++
+		if err != nil {
+			return all, err
+		}
+		all = append(all, keys...)
+		if next == 0 {
+			return all, nil
+		}
+		cur = next
+	}
+}
+
+// dedup: the elements of a scan as a set (Redis may return an element more than once)
+func dedup(l []any) []any {
+	seen := map[string]bool{}
+	out := []any{}
+	for _, e := range l {
+		if c := kit.Canon(e); !seen[c] {
+			seen[c] = true
+			out = append(out, e)
+		}
+	}
+	return out
+}
+
+// c12Align puts a reply into the model's form where the model describes a string by its bytes.
+func c12Align(got, want any) any {
+	switch w := want.(type) {
+	case kit.M:
+		if _, ok := w["bytes"]; ok {
+			if s, ok := got.(string); ok {
+				bs := make([]any, 0, len(s))
+				for i := 0; i < len(s); i++ {
+					bs = append(bs, float64(s[i]))
+				}
+				return kit.M{"bytes": bs}
+			}
+			return got
+		}
+		if g, ok := got.(kit.M); ok {
+			out := kit.M{}
+			for k, v := range g {
+				out[k] = c12Align(v, w[k])
+			}
+			return out
+		}
+	case []any:
+		if g, ok := got.([]any); ok && len(g) == len(w) {
+			out := make([]any, len(g))
+			for i := range g {
+				out[i] = c12Align(g[i], w[i])
+			}
+			return out
+		}
+	}
+	return got
 }
 
 func (x *c12Run) key(k any) string { return x.prefix + kit.Str(k) }
@@ -284,6 +395,7 @@ func pairsOf(ps []redis.Pair) []any {
 // exec runs one model command through the target and returns the reply in the model's shape.
 func (x *c12Run) exec(c kit.M, uc bool) (any, error) {
 	a, ctx := x.t.api, x.ctx
+	x.calls = 1
 	op := kit.Str(c["op"])
 	k := x.key(c["k"])
 	v := kit.Str(c["v"])
@@ -494,7 +606,9 @@ func (x *c12Run) exec(c kit.M, uc bool) (any, error) {
 		r, err := pick(uc, func() ([]redis.Pair, error) { return a.ZRangeByScoreWithScoresAndLimit(k, lo, hi, page, size) }, func() ([]redis.Pair, error) { return a.ZRangeByScoreWithScoresAndLimitCtx(ctx, k, lo, hi, page, size) })
 		return pairsOf(r.([]redis.Pair)), err
 	case "zrevrangebyscorelimit":
-		r, err := pick(uc, func() ([]redis.Pair, error) { return a.ZRevRangeByScoreWithScoresAndLimit(k, lo, hi, page, size) }, func() ([]redis.Pair, error) { return a.ZRevRangeByScoreWithScoresAndLimitCtx(ctx, k, lo, hi, page, size) })
+		r, err := pick(uc, func() ([]redis.Pair, error) { return a.ZRevRangeByScoreWithScoresAndLimit(k, lo, hi, page, size) }, func() ([]redis.Pair, error) {
+			return a.ZRevRangeByScoreWithScoresAndLimitCtx(ctx, k, lo, hi, page, size)
+		})
 		return pairsOf(r.([]redis.Pair)), err
 	case "zremrangebyscore":
 		return pick(uc, func() (int, error) { return a.ZRemRangeByScore(k, lo, hi) }, func() (int, error) { return a.ZRemRangeByScoreCtx(ctx, k, lo, hi) })
@@ -504,6 +618,103 @@ func (x *c12Run) exec(c kit.M, uc bool) (any, error) {
 		zs := &redis.ZStore{Keys: x.keys(c["ks"])}
 		dst := x.key(c["dst"])
 		return pick(uc, func() (int64, error) { return x.t.rds.ZUnionStore(dst, zs) }, func() (int64, error) { return x.t.rds.ZUnionStoreCtx(ctx, dst, zs) })
+	// ------------------------------------------------------------ bitmaps
+	case "setbit":
+		off, bit := int64(kit.Num(c["off"])), kit.Num(c["bit"])
+		return pick(uc, func() (int, error) { return a.SetBit(k, off, bit) }, func() (int, error) { return a.SetBitCtx(ctx, k, off, bit) })
+	case "getbit":
+		off := int64(kit.Num(c["off"]))
+		return pick(uc, func() (int, error) { return a.GetBit(k, off) }, func() (int, error) { return a.GetBitCtx(ctx, k, off) })
+	case "bitcount":
+		r := x.t.rds
+		return pick(uc, func() (int64, error) { return r.BitCount(k, start, stop) }, func() (int64, error) { return r.BitCountCtx(ctx, k, start, stop) })
+	case "bitpos":
+		r, bit := x.t.rds, int64(kit.Num(c["bit"]))
+		return pick(uc, func() (int64, error) { return r.BitPos(k, bit, start, stop) }, func() (int64, error) { return r.BitPosCtx(ctx, k, bit, start, stop) })
+	case "bitopand", "bitopor", "bitopxor", "bitopnot":
+		kk, dst := x.keys(c["ks"]), x.key(c["dst"])
+		r := x.t.rds
+		fns := map[string][2]func() (int64, error){
+			"bitopand": {func() (int64, error) { return r.BitOpAnd(dst, kk...) }, func() (int64, error) { return r.BitOpAndCtx(ctx, dst, kk...) }},
+			"bitopor":  {func() (int64, error) { return r.BitOpOr(dst, kk...) }, func() (int64, error) { return r.BitOpOrCtx(ctx, dst, kk...) }},
+			"bitopxor": {func() (int64, error) { return r.BitOpXor(dst, kk...) }, func() (int64, error) { return r.BitOpXorCtx(ctx, dst, kk...) }},
+			"bitopnot": {func() (int64, error) { return r.BitOpNot(dst, kk[0]) }, func() (int64, error) { return r.BitOpNotCtx(ctx, dst, kk[0]) }},
+		}[op]
+		return pick(uc, fns[0], fns[1])
+	// ------------------------------------------------------------ HyperLogLog
+	case "pfadd":
+		es := kit.List(c["es"])
+		return pick(uc, func() (bool, error) { return a.PFAdd(k, es...) }, func() (bool, error) { return a.PFAddCtx(ctx, k, es...) })
+	case "pfcount":
+		return pick(uc, func() (int64, error) { return a.PFCount(k) }, func() (int64, error) { return a.PFCountCtx(ctx, k) })
+	case "pfmerge":
+		kk, dst := x.keys(c["ks"]), x.key(c["dst"])
+		return pickE(uc, func() error { return x.t.rds.PFMerge(dst, kk...) }, func() error { return x.t.rds.PFMergeCtx(ctx, dst, kk...) })
+	// ------------------------------------------------------------ scripts
+	case "eval", "evalsha":
+		var args []any
+		switch kit.Str(c["s"]) {
+		case "sset":
+			args = []any{v}
+		case "sincr":
+			args = []any{n}
+		}
+		x.t.scripts = true
+		if op == "eval" {
+			src := kit.Str(c["src"])
+			return pick(uc, func() (any, error) { return a.Eval(src, k, args...) }, func() (any, error) { return a.EvalCtx(ctx, src, k, args...) })
+		}
+		sha := kit.Str(c["sha"])
+		return pick(uc, func() (any, error) { return x.t.rds.EvalSha(sha, []string{k}, args...) }, func() (any, error) { return x.t.rds.EvalShaCtx(ctx, sha, []string{k}, args...) })
+	case "scriptload":
+		src := kit.Str(c["src"])
+		x.t.scripts = true
+		return pick(uc, func() (string, error) { return x.t.rds.ScriptLoad(src) }, func() (string, error) { return x.t.rds.ScriptLoadCtx(ctx, src) })
+	// ------------------------------------------------------------ the scan family: one complete iteration
+	case "scanall":
+		cnt, match := int64(kit.Num(c["cnt"])), x.prefix+"*"
+		if lit := kit.Str(c["match"]); lit != "" {
+			match = x.prefix + lit
+		}
+		r := x.t.rds
+		all, err := x.scanAll(func(cur uint64) ([]string, uint64, error) {
+			if uc {
+				return r.ScanCtx(ctx, cur, match, cnt)
+			}
+			return r.Scan(cur, match, cnt)
+		})
+		var out []any
+		for _, s := range all {
+			out = append(out, strings.TrimPrefix(s, x.prefix))
+		}
+		return dedup(out), err
+	case "sscanall":
+		cnt, match := int64(kit.Num(c["cnt"])), kit.Str(c["match"])
+		all, err := x.scanAll(func(cur uint64) ([]string, uint64, error) {
+			if uc {
+				return a.SScanCtx(ctx, k, cur, match, cnt)
+			}
+			return a.SScan(k, cur, match, cnt)
+		})
+		return dedup(anys(all)), err
+	case "hscanall":
+		cnt, match := int64(kit.Num(c["cnt"])), kit.Str(c["match"])
+		r := x.t.rds
+		all, err := x.scanAll(func(cur uint64) ([]string, uint64, error) {
+			if uc {
+				return r.HScanCtx(ctx, k, cur, match, cnt)
+			}
+			return r.HScan(k, cur, match, cnt)
+		})
+		var out []any
+		for i := 0; i < len(all); i += 2 { // field, value, field, value ...
+			p := kit.M{"f": all[i]}
+			if i+1 < len(all) {
+				p["v"] = all[i+1]
+			}
+			out = append(out, p)
+		}
+		return dedup(out), err
 	}
 	return nil, fmt.Errorf("verif: unknown op %q", op)
 }
@@ -564,6 +775,9 @@ func c12Snap(servers []*miniredis.Miniredis, real, model string) (kit.M, error) 
 		ms, _ := holder.Members(real)
 		sort.Strings(ms)
 		out["t"], out["m"] = "set", anys(ms)
+	case "hll":
+		n, _ := holder.PfCount(real)
+		out["t"], out["n"] = "hll", n
 	case "zset":
 		zs, _ := holder.SortedSet(real)
 		type ms struct {
@@ -613,8 +827,12 @@ func runC12CaseRetry(c kit.Case, targets []*c12Target, seed int64, rep *kit.Repo
 }
 
 // commands one call may put on the wire
-func c12Budget(t *c12Target, cmd kit.M) int64 {
+func c12Budget(t *c12Target, cmd kit.M, x *c12Run) int64 {
 	switch op := kit.Str(cmd["op"]); {
+	case op == "scanall" || op == "sscanall" || op == "hscanall":
+		return int64(x.calls)
+	case op == "eval" || op == "evalsha":
+		return 2 // the command itself and the one command its script calls (the pre-hook sees both)
 	case op == "del" && t.rds == nil:
 		return int64(len(kit.List(cmd["ks"])))
 	case (op == "zrangebyscorelimit" || op == "zrevrangebyscorelimit") && kit.Num(cmd["size"]) <= 0:
@@ -640,6 +858,9 @@ func runC12Case(c kit.Case, targets []*c12Target, seed int64, rep *kit.Reporter,
 		for _, s := range t.servers {
 			s.FlushAll()
 			s.SetTime(time.Unix(c12Base, 0))
+		}
+		if err := t.flushScripts(); err != nil {
+			return kit.Verdict{Case: c.Index, Infra: true, Msg: "script flush: " + err.Error()}
 		}
 		x := &c12Run{t: t, prefix: fmt.Sprintf("c%d:", c.Index), ctx: context.Background()}
 		trail := []string{}
@@ -762,7 +983,7 @@ func runC12Case(c kit.Case, targets []*c12Target, seed int64, rep *kit.Reporter,
 			}
 			n0 := t.ncmd.Load()
 			got, err := x.exec(cmd, uc)
-			if sent, budget := t.ncmd.Load()-n0, c12Budget(t, cmd); sent > budget {
+			if sent, budget := t.ncmd.Load()-n0, c12Budget(t, cmd, x); sent > budget {
 				if !last {
 					return kit.Verdict{Case: c.Index, Infra: true, Msg: c12Disturbed}
 				}
@@ -779,10 +1000,20 @@ func runC12Case(c kit.Case, targets []*c12Target, seed int64, rep *kit.Reporter,
 				return fail(i, fmt.Sprintf("C12:%s:%s:err", tKind(t), op),
 					fmt.Sprintf("%s: error %q, specification %q; last commands %s", where, g, w, strings.Join(trail, " ")))
 			}
+			if err != nil {
+				rep.Count(t.name+"."+op+"!"+c12ErrClass(err), 1)
+			}
+			if x.calls > 1 {
+				rep.Count(t.name+"."+op+".multi-call", 1)
+			}
 			if err != nil || c12NoValue[op] {
 				continue
 			}
 			var g, w string
+			if wm, ok := want["v"].(kit.M); ok && wm["bytes"] != nil {
+				rep.Count(t.name+"."+op+".bytes", 1)
+			}
+			got = c12Align(got, want["v"])
 			if c12Unordered[op] {
 				g, w = canonUnordered(got), canonUnordered(want["v"])
 			} else {
@@ -810,7 +1041,7 @@ func runC12Case(c kit.Case, targets []*c12Target, seed int64, rep *kit.Reporter,
 			if err != nil {
 				return fail(len(steps), fmt.Sprintf("C12:%s:final:placement", tKind(t)), t.name+": "+err.Error())
 			}
-			if g, w := kit.Canon(snap), kit.Canon(fm); g != w {
+			if g, w := kit.Canon(c12Align(snap, fm)), kit.Canon(fm); g != w {
 				return fail(len(steps), fmt.Sprintf("C12:%s:final:%s", tKind(t), kit.Str(fm["t"])),
 					fmt.Sprintf("%s: final keyspace has %s, specification %s; last commands %s", t.name, g, w, strings.Join(trail, " ")))
 			}
@@ -820,6 +1051,24 @@ func runC12Case(c kit.Case, targets []*c12Target, seed int64, rep *kit.Reporter,
 				if !known[rk] {
 					return fail(len(steps), fmt.Sprintf("C12:%s:final:extra-key", tKind(t)),
 						fmt.Sprintf("%s: server holds key %q that the specification does not; last commands %s", t.name, rk, strings.Join(trail, " ")))
+				}
+			}
+		}
+		// the server's script cache (the wrapper's own server only: kv.Store offers no EvalSha)
+		if cache := kit.List(c.Steps[0]["cache"]); t.rds != nil && len(cache) > 0 {
+			var shas []string
+			for _, e := range cache {
+				shas = append(shas, kit.Str(e.(kit.M)["sha"]))
+			}
+			known, err := t.raw[0].ScriptExists(context.Background(), shas...).Result()
+			if err != nil || len(known) != len(shas) {
+				return kit.Verdict{Case: c.Index, Infra: true, Msg: fmt.Sprintf("script exists: %v %v", known, err)}
+			}
+			for i, e := range cache {
+				// "evalfail": cached by Redis, not by miniredis (named deviation MiniredisCachesOnlySuccessfulEval)
+				if st := kit.Str(e.(kit.M)["st"]); st != "evalfail" && known[i] != (st == "loaded") {
+					return fail(len(steps), "C12:redis:final:script-cache",
+						fmt.Sprintf("%s: the server knows script %s: %v, specification: %s; last commands %s", t.name, shas[i], known[i], st, strings.Join(trail, " ")))
 				}
 			}
 		}
